@@ -175,6 +175,11 @@ func newRig(cfg Config) (*rig, error) {
 		r.addr[m] = fmt.Sprintf("127.0.0.1:%d", 41000+i)
 		r.name[r.addr[m]] = m
 	}
+	if g := cfg.Ghosts; !cfg.Provider && len(g) >= 2 {
+		// two members on one address (a node that came back under a fresh id next to its stale entry): a member is
+		// identified by its id, the host is an attribute
+		r.addr[g[len(g)-1]] = r.addr[g[len(g)-2]]
+	}
 	for _, name := range cfg.Nodes {
 		n := &node{name: name, addr: r.addr[name], mark: make(chan int, 64)}
 		e, err := actor.NewEngine(actor.NewEngineConfig().WithRemote(&fakeRemote{addr: n.addr, name: name, net: r.net}))
